@@ -768,6 +768,17 @@ Proof.
   intros. repeat split; try reflexivity; intros H; destruct c; try discriminate; reflexivity.
 Qed.
 
+(* flip(g)(b) is PartialApp1(g, b) - not a section of flip(g) itself, yet consistent with it:
+   flip(g)(b)(a) = g(b, a) = flip(g)(a, b) *)
+Lemma flip_curried : forall n g a b,
+  eval (S (S n)) (form_curried (FFlip g) a b) = run (S (S n)) (FFlip g) [a; b] /\
+  run (S (S n)) (FFlip g) [a; b] = run (S n) g [b; a].
+Proof.
+  intros n g a b. split; [|apply flip_two].
+  rewrite (@curried_eval (S n) _ _ _ (FPartialApp1 g b)); [|reflexivity].
+  rewrite flip_two. apply partial_app1.
+Qed.
+
 (* lift(b) is PartialAppLast(lift, b): a right section (so last_section applies) *)
 Lemma lift_is_section : forall n a b,
   run (S n) (FCombinator CLift) [b] = Ok (VFunc (FPartialAppLast (FCombinator CLift) b)) /\
